@@ -3,22 +3,30 @@ reg("C19",
     anchor_files=["src/hgraph/types/operator_dispatch.cpp", "include/hgraph/types/operator_dispatch.h", "src/hgraph/types/type_pattern.cpp",
                   "include/hgraph/types/type_pattern.h", "include/hgraph/types/type_resolution.h", "include/hgraph/types/wiring_observer.h"],
     needs_tus=["src/hgraph/types/operator_dispatch.cpp", "src/hgraph/types/type_pattern.cpp"],
-    quick=dict(defs=dict(FAMMIN=1, FAMMAX=3, ARITIES=3, POOL1="0x97dfd", POOL2="0xb3ff", ARGS1="0x83f", ARGS2="0xbdf", SZMAX=4),
+    quick=dict(defs=dict(FAMMIN=1, FAMMAX=3, ARITIES=15, POOL1="0x97dfd", POOL2="0xb3ff", ARGS1="0x83f", ARGS2="0xbdf", POOL3="0xcff", ARGS3="0xff", POOL4="0xff", ARGS4="0x1ff", SZMAX=4),
                symx=dict(shards=16, **{"max-wall": 900})),
-    thorough=dict(defs=dict(FAMMIN=1, FAMMAX=3, ARITIES=3, POOL1="0x3fffff", POOL2="0xffff", ARGS1="0x1fff", ARGS2="0x1fff", SZMAX=6),
+    thorough=dict(defs=dict(FAMMIN=1, FAMMAX=3, ARITIES=15, POOL1="0x3fffff", POOL2="0xffff", ARGS1="0x1fff", ARGS2="0x1fff", POOL3="0x3fff", ARGS3="0x7ff", POOL4="0xff", ARGS4="0x1ff", SZMAX=6),
                   symx=dict(shards=16, **{"max-wall": 3000})),
     reach=["end", "winner", "winner_among_several_matching", "winner_among_several_matching_3_orders", "no_match_error", "ambiguity_error",
            "single_match", "single_reject", "ts_and_scalar_vars_bound", "size_var_bound", "default_used", "symbolic_rank_member_matches",
-           "documented_order_pair_checked"],
+           "documented_order_pair_checked", "tsb_fieldwise_winner", "tsb_nested_fieldwise_winner", "tsb_prefix_narrower_pattern_rejected",
+           "requested_output_tsb_winner", "requested_output_prefix_narrower_pattern_rejected"],
     bounds="every family of FAMMIN..FAMMAX candidates out of the pool selected by the POOL1/POOL2 masks (quick: 15 one-argument and 13 two-argument candidates, thorough: all 22 and 16) of hand-built OperatorImpl (concrete TS leaf, TS[int] uncollapsed, TS[T], "
            "constrained scalar var, bare V, constrained V, TSL with symbolic fixed size / size variable / constrained size variable with symbolic accepted size / ts-var element, "
            "TSD[K,V], TSD[K,TS[T]], TSD[K,TSL[TS[T],N]], REF[TS[T]], SIGNAL, TSB schema variable, TSW with symbolic period/min-period, TSW any-window, a defaulted scalar parameter, "
            "a **kwargs collector whose pack pattern has a symbolic fixed size (symbolic effective rank), an unbindable output variable; repeated / independent ts, scalar and size "
            "variables across two positions, scalar parameters generic and concrete) x every argument tuple of the pool (ARGS1/ARGS2 masks over 13 one-argument schemas and 13 "
            "two-argument tuples incl. REF sources, nested collections and plain scalar values) x ALL registration orders of the family (each under a fresh operator name, inside one path) "
-           "plus every member registered alone; all numeric pattern parameters symbolic in [0,SZMAX]",
+           "plus every member registered alone; all numeric pattern parameters symbolic in [0,SZMAX]. "
+           "Pool group 3 (POOL3/ARGS3; quick 10 x 8, thorough 14 x 11): one-argument candidates whose parameter is a FIELD-WISE TSB pattern (not collapsed to a concrete leaf) - "
+           "narrow [a:TS[T]], wide [a:TS[T],b:TS[U]], three fields, repeated variable across fields, swapped order, renamed field, nominal TSB<Pair>, TSB schema variable, "
+           "half-concrete, ts-variable field, REF field, the narrow/wide patterns nested under TSD[K,.], bare V - against bundles with the same fields, MORE fields with the pattern's "
+           "fields as a prefix, FEWER fields, same count but other names / order, nominal bundles with the same / another name, a REF field, TSD of bundles (input_ts_pattern_match). "
+           "Pool group 4 (POOL4/ARGS4; 8 x 9): candidates whose OUTPUT is a field-wise TSB pattern (narrow, wide, three fields, swapped, nominal, bundle input + wider bundle output, "
+           "ts variable, plain TS[T]) resolved with a caller-requested output bundle (exact, wider, narrower, swapped, renamed, nominal, conflicting with the input binding, none) "
+           "(output_ts_pattern_match / ts_pattern_match)",
     outside="make_operator_impl / register_overload<Op,Impl> / wire<Op> (template front door, not compilable with clang 14); requires predicates and default resolvers; keyword arguments, "
-            "non-empty **kwargs packs and variadic tails; caller-requested output type, size hints and initial resolutions; numeric scalar coercion and bundle-inheritance adaptation ranks; "
+            "non-empty **kwargs packs and variadic tails; caller-requested output types other than the bundles of pool group 4, size hints and initial resolutions; numeric scalar coercion and bundle-inheritance adaptation ranks; "
             "Python candidates; families larger than FAMMAX; arity 3+; the rank formula itself is only constrained through the orderings the developer guide states",
     assumptions=["candidates are built by hand with the public non-template factories and rank = operator_dispatch_detail::operator_rank(params), exactly as make_operator_impl and the Python bridge compute it",
                  "'matches' is defined by an independent reference unifier in the harness (REF transparency and SIGNAL as documented in type_pattern.h); promotion of a plain value to a const "
